@@ -386,10 +386,18 @@ def r17_3(ctx):
     bases = {"base", "10", "16"}
     free: Dict[str, str] = {}
 
+    from .common import expand_locals
+
     def leaf(node):
+        # explaining variables are read through (`is_hex = sym.orig_type == HEX`, `entered = int(text, base)`)
+        if any(isinstance(x, ast.Name) and x.id not in texts and x.id not in ("sym", "base", prm) for x in ast.walk(node)):
+            try:
+                node = ast.parse(expand_locals(cv.node, node, depth=4), mode="eval").body
+            except SyntaxError:
+                pass
         t = ast.unparse(node).replace('"', "'")
         if isinstance(node, ast.Call) and ast.unparse(node.func).split(".")[-1] == "_is_base_n" and len(node.args) == 2 \
-                and ast.unparse(node.args[0]) in texts and ast.unparse(node.args[1]) in bases:
+                and ast.unparse(node.args[0]) in texts:
             return "A", True
         if t in ("sym.orig_type == HEX", "sym.orig_type is HEX", "sym.orig_type != INT", "sym.orig_type is not INT"):
             return "H", True
